@@ -29,6 +29,10 @@ def run(ctx):
     ctx.rule("R07.d", "depends model, path resolution: Parameters._spec_to_obj interpreted for a.x / a.b.x / a.b.c.x / a.b.c.x:bounds / a.b.param with every link of the path in turn holding None: "
                       "the parameters to watch are exactly one per existing holder along the path (so that attaching an object at ANY level is noticed) plus the leaves iff the whole path is attached", floor=1)
     ctx.rule("R07.u", "dispatch model, snapshot: Parameters._call_watcher serves a watcher that was unregistered after the dispatch snapshot was taken -- when the first dependency watcher of an event re-resolves the parent's dependencies, the old watchers of the other methods are the only carriers of that event", floor=1)
+    ctx.rule("R07.k", "depends model, change filter on several events: _skip_event interpreted with two replacement events delivered together whose sub-objects share the relative leaf path "
+                      "(left.x / right.x changed or not, dict and list form of `changed`): skipped iff no compared value differs", floor=1)
+    ctx.rule("R07.g", "depends model, path helper: _getattrr (which the change filter reads the old and new leaf values with) interpreted on a resolving path with a truthy / FALSY / None leaf "
+                      "and on a path broken at either link, with and without a default: the very leaf value; the default for a broken path; AttributeError without one", floor=1)
     ctx.rule("R07.q", "depends model, batch rebind (shared with R06.q): a path root replaced twice inside one batch -- _update_deps -> _call_watcher(rebuilt watcher) -> flush interpreted in sequence with the "
                       "replaced watcher already queued: exactly one watcher runs on behalf of the method at the flush", floor=1)
     ctx.rule("R07.c", "every assignment of a path root re-resolves: Parameter.__set__ calls obj.param._update_deps(name) for an instance, after storing the value and before the watchers run", floor=1)
@@ -72,3 +76,5 @@ def run(ctx):
     dispatch_model.snapshot_model(ctx, "R07.u", "C07")
     depends_model.report_filter(ctx, "R07.a")
     depends_model.report_batch_rebind(ctx, "R07.q")
+    depends_model.report_getattrr(ctx, "R07.g")
+    depends_model.report_skip_event_multi(ctx, "R07.k")
